@@ -201,6 +201,17 @@ CHECKS = {
         BASE_NOTE + 'User functions are fixed integer arithmetic; cloudpickle is trusted.',
         'DESIGN.md section 5 C13',
     ),
+    'C05': (
+        'Rocq proof of crash consistency over a primitive-level model of the release directory (every crash point incl. byte prefixes of writes) + fault enumeration against the real posix registry',
+        'Theorems (Properties/C05.v) for every directory state, generation number, state list and tag: whenever the process dies '
+        'during a commit or a publish - after any number of primitives, inside any write - a fresh reader sees the previous content '
+        'or the complete new item; a commit never touches another generation; numbering is one above every listed generation and a '
+        'release is accepted only above every existing version. Correspondence/fault enumeration: histories through the real asset '
+        'levels and posix registry; for every commit and publish of the crash-histories the operation is replayed from a snapshot '
+        'with a forked child killed before each file-system primitive and in the middle of each write, then read by a fresh reader.',
+        BASE_NOTE + 'Process-death semantics only (primitives atomic and durable in program order); volatile/mlflow registries not exercised.',
+        'DESIGN.md section 5 C05',
+    ),
 }
 NOT_YET = 'model and theorems not built yet in this round (planned, see DESIGN.md section 5/9)'
 
